@@ -373,10 +373,10 @@ func (c *caseRun) cleanupProbe(w *world, s1 *snap, kinds []string, rep func(clau
 			continue
 		}
 		if reservedFor(cl, pod) && !reservedFor(icl, ipod) {
-			rep("residue-claim-reservation", "claim %s is still reserved for the unbound pod of a Failed, withdrawn request (reservedFor %v)", k, cl.Status.ReservedFor)
+			rep(stepFaulted("residue-claim-reservation", "get-resourceclaim-unallocate", "update-resourceclaim-status-unallocate"), "claim %s is still reserved for the unbound pod of a Failed, withdrawn request (reservedFor %v)", k, cl.Status.ReservedFor)
 		}
 		if cl.Status.Allocation != nil && icl.Status.Allocation == nil {
-			rep("residue-claim-allocation", "claim %s keeps the allocation written by the failed attempt", k)
+			rep(stepFaulted("residue-claim-allocation", "get-resourceclaim-unallocate", "update-resourceclaim-status-unallocate"), "claim %s keeps the allocation written by the failed attempt", k)
 		}
 	}
 	for _, k := range sortedKeys(s.cms) {
